@@ -7,6 +7,8 @@
 #include <half.h>
 #include <immintrin.h>
 #include <cpuid.h>
+#include <cfenv>
+#include <vector>
 
 using namespace vf;
 using IMATH_NAMESPACE::half;
@@ -103,6 +105,26 @@ int main (int argc, char** argv)
                 if (back != h) R ().fail ("roundtrip.nan-payload", hx (h, 4), hx (h, 4), hx (back, 4));
             }
         }
+        // ... and under every non-default ambient rounding mode (both directions of the round trip)
+        {
+            static const int   MODES[3] = {FE_UPWARD, FE_DOWNWARD, FE_TOWARDZERO};
+            static const char* MN[3]    = {"FE_UPWARD", "FE_DOWNWARD", "FE_TOWARDZERO"};
+            for (int m = 0; m < 3; ++m)
+                for (uint32_t i = 0; i < 65536; ++i)
+                {
+                    uint16_t h   = (uint16_t) i;
+                    uint32_t ref = href::h2f_ref (h);
+                    fesetround (MODES[m]);
+                    uint32_t c = href::fbits (imath_half_to_float (h));
+                    half     hh; hh.setBits (h);
+                    uint32_t cpp  = href::fbits ((float) hh);
+                    uint16_t back = imath_float_to_half (href::bitsf (c));
+                    fesetround (FE_TONEAREST);
+                    if (c != ref || cpp != ref) R ().fail (std::string ("imath_half_to_float.under-") + MN[m], hx (h, 4), hx (ref, 8), hx (c != ref ? c : cpp, 8));
+                    if (back != h) R ().fail (std::string ("roundtrip.under-") + MN[m], hx (h, 4), hx (h, 4), hx (back, 4));
+                }
+            R ().add ("transitions", 65536 * 3 * 3);
+        }
         R ().add ("states", 65536);
         R ().add ("transitions", 65536 * 4);
         R ().add ("evaluations", 65536);
@@ -118,7 +140,7 @@ int main (int argc, char** argv)
     if (R ().stage ("float-to-half-all"))
     {
         std::atomic<long long> ties (0), subn (0), near_ovf (0), near_flush (0), nan_zero_top (0), nan_other (0),
-            generic (0), done (0), outcomes_seen (0);
+            generic (0), done (0), outcomes_seen (0), modes_done (0);
         std::vector<std::atomic<uint8_t>> seen (65536);
         for (auto& s : seen) s = 0;
         const uint64_t N = 1ull << 32, CH = 1ull << 20;
@@ -171,6 +193,32 @@ int main (int argc, char** argv)
                     }
                 }
             }
+            // The conversion is defined on bit patterns: its result must not depend on the AMBIENT rounding mode. Re-run
+            // the two library entry points on this chunk under each non-default mode (set in this worker thread only,
+            // restored before the reference model is used again) and compare with the reference.
+            {
+                static const int   MODES[3] = {FE_UPWARD, FE_DOWNWARD, FE_TOWARDZERO};
+                static const char* MN[3]    = {"FE_UPWARD", "FE_DOWNWARD", "FE_TOWARDZERO"};
+                static thread_local std::vector<uint16_t> refbuf;
+                refbuf.resize (hi - lo);
+                for (uint64_t i = lo; i < hi; ++i) refbuf[i - lo] = href::f2h_ref ((uint32_t) i);
+                for (int m = 0; m < 3; ++m)
+                {
+                    fesetround (MODES[m]);
+                    long long bad_c = 0, bad_cpp = 0; uint32_t first_c = 0, first_cpp = 0; uint16_t got_c = 0, got_cpp = 0;
+                    for (uint64_t i = lo; i < hi; ++i)
+                    {
+                        float    f = href::bitsf ((uint32_t) i);
+                        uint16_t c = imath_float_to_half (f), cpp = half (f).bits (), r = refbuf[i - lo];
+                        if (c != r && !bad_c++) { first_c = (uint32_t) i; got_c = c; }
+                        if (cpp != r && !bad_cpp++) { first_cpp = (uint32_t) i; got_cpp = cpp; }
+                    }
+                    fesetround (FE_TONEAREST);
+                    if (bad_c) R ().fail_n (std::string ("imath_float_to_half.under-") + MN[m], bad_c, hx (first_c, 8), hx (refbuf[first_c - lo], 4), hx (got_c, 4));
+                    if (bad_cpp) R ().fail_n (std::string ("half::half(float).under-") + MN[m], bad_cpp, hx (first_cpp, 8), hx (refbuf[first_cpp - lo], 4), hx (got_cpp, 4));
+                }
+                modes_done += 3 * (long long) (hi - lo);
+            }
             ties += l_ties; subn += l_sub; near_ovf += l_ovf; near_flush += l_flush; nan_zero_top += l_nz; nan_other += l_no; generic += l_gen;
             done += (long long) (hi - lo);
         });
@@ -183,13 +231,15 @@ int main (int argc, char** argv)
         R ().cls ("f2h.near_flush_threshold", near_flush); R ().cls ("f2h.nan_zero_top_payload", nan_zero_top);
         R ().cls ("f2h.nan_other", nan_other); R ().cls ("f2h.generic", generic);
         R ().add ("distinct_outcomes", distinct);
+        R ().add ("transitions", modes_done.load () * 2);
+        R ().cls ("f2h.non-default-ambient-rounding-mode", modes_done.load ());
         if (complete && distinct != 65536) R ().fail ("surjective", "all floats", "65536 distinct half results", std::to_string (distinct));
         R ().sample ("float 0x477fefff (65519.996) -> half " + hx (imath_float_to_half (href::bitsf (0x477fefffu)), 4));
         R ().sample ("float 0x477ff000 (65520) -> half " + hx (imath_float_to_half (href::bitsf (0x477ff000u)), 4));
         R ().sample ("float 0x33000000 (2^-25, tie to even 0) -> half " + hx (imath_float_to_half (href::bitsf (0x33000000u)), 4));
         R ().sample ("float 0x33000001 -> half " + hx (imath_float_to_half (href::bitsf (0x33000001u)), 4));
         R ().sample ("float 0x7f800001 (NaN, top payload 0) -> half " + hx (imath_float_to_half (href::bitsf (0x7f800001u)), 4));
-        if (complete) R ().stage_done ("all 2^32 float patterns x {C function, C++ constructor} vs definition model" + std::string (have_f16c ? " and F16C hardware" : ""));
+        if (complete) R ().stage_done ("all 2^32 float patterns x {C function, C++ constructor} x {FE_TONEAREST, FE_UPWARD, FE_DOWNWARD, FE_TOWARDZERO} vs definition model" + std::string (have_f16c ? " and F16C hardware" : ""));
         else R ().stage_partial (std::to_string (done.load ()) + " of 2^32 patterns");
     }
     return R ().finish ();
